@@ -6,6 +6,7 @@ from ..observe import run as brun
 
 PID = 'C17'
 TOL = 1e-4
+_LAST = {}
 GAP = 0.8          # accepted only well inside the statement's 0.9 so eigen-solver error cannot pull a graph in
 
 
@@ -86,6 +87,7 @@ def check_graph(r, k, G, seeds, reps, info=None, single=True):
             if abs(x - e) > TOL:
                 r.v(pre + '%s|off-by-more-than-1e-4-on-precondition-graph' % mode, 'cap', case, e, x)
             r.ctr['precondition_checked_' + mode] += 1
+            _LAST['case'] = dict(case, result=x, log2_spectral_radius_enclosure=[math.log2(lo), math.log2(hi)])
             r.out.add(round(e, 6))
     if info['pre']:
         r.nontriv += 1
@@ -115,7 +117,7 @@ def _w_g1(chunk):
             check_graph(r, 1, G, seeds, reps, info)
         else:
             check_graph(r, 1, G, seeds[:1], reps[:1], info)     # only "<= 2" applies
-    r.sample({'k': 1, 'arc_code': '0x%04x' % (hi - 1), 'repeats': [1] + list(reps), 'seeds': list(seeds)}, 1)
+    r.sample(_LAST.get('case') or {'k': 1, 'arc_code': '0x%04x' % (hi - 1)}, 1)
     return r
 
 
@@ -130,7 +132,7 @@ def _w_g2(chunk):
             check_graph(r, 2, G, seeds, reps, info)
         else:
             check_graph(r, 2, G, seeds[:1], reps[:1], info)
-    r.sample({'k': 2, 'vertex_mask': '0x%04x' % (hi - 1), 'repeats': [1] + list(reps), 'seeds': list(seeds)}, 1)
+    r.sample(_LAST.get('case') or {'k': 2, 'vertex_mask': '0x%04x' % (hi - 1)}, 1)
     return r
 
 
